@@ -213,7 +213,6 @@ RulesLoop:
 			verifRule(tx, phase, i, r, "pendingMarker")
 			if r.SecMark_ == tx.SkipAfter {
 				tx.SkipAfter = ""
-	verifPhase(tx, phase, "end")
 			} else {
 				tx.DebugLogger().Debug().
 					Int("rule_id", r.ID_).
@@ -291,6 +290,7 @@ RulesLoop:
 	tx.Skip = 0
 	// A pending skipAfter whose marker was not found in this phase must not leak into the next phase
 	tx.SkipAfter = ""
+	verifPhase(tx, phase, "end")
 
 	tx.stopWatches[phase] = time.Now().UnixNano() - ts
 	return tx.IsInterrupted()
